@@ -18,7 +18,7 @@ PROPS["C17"] = dict(
     level_note="Trusts ref/guid (40 lines, checked against GUID strings pinned in the repository tests) and Go's unicode/utf16.",
     rule=("rapid-generated (GUID pair, Unicode string, data bytes) cases; GUID bytes mix uniform, 0x00, 0xff and "
           "zero-high-nibble bytes, the second GUID differs from the first in exactly one byte (or is equal, 10%); strings are "
-          "valid NUL-free Unicode incl. empty, BMP, surrogate pairs, U+FEFF/U+FFFD, up to 4096 runes. Non-trivial = GUID with a "
+          "valid NUL-free Unicode incl. empty, BMP, surrogate pairs, U+FEFF/U+FFFD, up to 4096 runes, and at a low rate that string repeated up to 64 KiB .. 33 MiB. Non-trivial = GUID with a "
           "field that has a leading zero nibble, or string with a non-ASCII rune; distinct by SHA-256 of (GUIDs, string)."),
     assumptions=["reference GUID codec ref/guid (validated against GUID strings pinned in the repository's tests)",
                  "Go's unicode/utf16 as the UTF-16 reference"],
@@ -36,7 +36,7 @@ PROPS["C07"] = dict(
                 "with a reference decoder written from the specification layout, then re-encoded and compared byte for byte; databases built "
                 "through Append/Remove/AppendList are encoded, checked well-formed by the reference and re-decoded to an equal database."),
     level_note="Trusts ref/esl (reference codec; round-trips the repository's .esl fixtures and captured variables at the start of every run).",
-    rule=("rapid-generated case = reference-encoded well-formed stream (+ optionally 1..12 builder operations applied to the decoded database). "
+    rule=("rapid-generated case = reference-encoded well-formed stream (+ optionally 1..12 builder operations applied to the decoded database). At a low rate the stream is one of three deterministic giant streams (one 16 MiB entry, 34 lists of 1 MiB, one list of 350000 hashes) named by kind in the case. "
           "Non-trivial = stream with >=2 lists or >=2 entries or an EXTERNAL_MANAGEMENT list or an empty list; distinct by SHA-256 of (stream, ops)."),
     assumptions=["ref/esl reference codec", "builder operations only use types the decoder handles (other types belong to C09)"],
     quick=dict(checks=7500, shards=4, timeout=600),
@@ -52,7 +52,7 @@ PROPS["C08"] = dict(
                 "random GUIDs, trailing and inserted garbage, pairs of these. Oracle: a library result without error implies that the reference "
                 "decoder accepts the whole input and yields the same lists. Thorough tier adds coverage-guided native fuzzing with the same oracle."),
     level_note="Trusts ref/esl.Decode as the statement of 'well-formed' (whole input consumed, ListSize = 28 + HeaderSize + n*Size, Size >= 16, SHA-256 Size = 48, handled types only).",
-    rule=("case = small reference-encoded stream + 0..2 mutations (+ every truncation point of the result for 1 case in 4); every input fed to the decoder "
+    rule=("case = small reference-encoded stream + 0..2 mutations (+ every truncation point of the result for 1 case in 4); at a low rate the stream is a deterministic giant stream (16-34 MiB), whole or cut once; every input fed to the decoder "
           "counts as one evaluation. Non-trivial = input that differs from the well-formed stream and that the reference rejects; distinct by SHA-256 of the input."),
     assumptions=["ref/esl reference decoder"],
     exhaustive_note="every truncation point of each 'AllCuts' stream (class every_truncation_point)",
